@@ -174,6 +174,10 @@ pub struct Params {
     pub pin_kind: PinKind,
     /// TableFull: pins released before the second probe.
     pub release: u8,
+    /// TableFull: this many pinned sessions are marked *expired* at R once their exchange is
+    /// live (what RemoveFabric / CommissioningComplete do to the session a command arrived on):
+    /// an expired session that still carries a live exchange must not be evicted either.
+    pub expire_pinned: u8,
     pub chaos: u8,
     pub shuffle: bool,
 }
@@ -1464,6 +1468,24 @@ fn run_case_inner(p: &Params, setup_attempt: u64) -> Outcome {
                                 break;
                             }
                             exec::sleep_ms(50).await;
+                        }
+                    }
+
+                    if p.expire_pinned > 0 {
+                        let sids: Vec<u32> = sh
+                            .pins
+                            .borrow()
+                            .iter()
+                            .filter(|x| x.established)
+                            .map(|x| x.sid)
+                            .take(p.expire_pinned as usize)
+                            .collect();
+                        for sid in sids {
+                            mr.with_state(|st| {
+                                st.verif_sessions_mut()
+                                    .remove_for_fabric(core::num::NonZeroU8::new(0xEE).unwrap(), Some(sid))
+                            });
+                            res.borrow_mut().bump("pinned_sessions_marked_expired", 1);
                         }
                     }
 
